@@ -344,6 +344,25 @@ VARIANTS = [
         (S, "                for node in history_targets:\n", "                for node in self._resolve_history_target(target_state):\n")]),
     V("c08-rollback-skips-still-active", {"C08": "R2", "C07": "R4"}, edits=[
         (B, "                if node in states_to_exit:\n                    self._schedule_state_tasks(node)\n", "                if node in states_to_exit and node not in self._active_state_nodes:\n                    self._schedule_state_tasks(node)\n")]),
+    V("c15-unregister-without-owner-check", {"C15": "R5", "C14": "R3"}, edits=[
+        (B, "        for system_id, candidate in list(registry.items()):\n            if candidate is self:\n                del registry[system_id]\n\n    def _resolve_delay",
+            "        for system_id, candidate in list(registry.items()):\n            if candidate.id == self.id:\n                del registry[system_id]\n\n    def _resolve_delay")]),
+    V("c14-stop-forgets-send-flags", {"C14": "R3"}, edits=[
+        (S, "        for cancel_flag in list(self._pending_send_cancels):\n            cancel_flag.set()\n", "")]),
+    V("c11-record-only-leaves", {"C11": "R8"}, edits=[
+        (B, "(node for node in self._active_state_nodes if node is not state and self._is_descendant(node, state))", "(node for node in self._active_state_nodes if node is not state and self._is_descendant(node, state) and (not node.states))")]),
+    V("c12-persist-only-leaf-history", {"C12": "R6"}, edits=[
+        (B, "'history': {parent_id: sorted((node.id for node in nodes))", "'history': {parent_id: sorted((node.id for node in nodes if not node.states))")]),
+    V("c16-pick-actor-by-smallest-id", {"C16": "R2", "C15": "R8"}, edits=[
+        (B, "        if len(matches) > 1:\n            pass\n            return None\n", "        if len(matches) > 1:\n            return min(matches, key=lambda actor: actor.id)\n")]),
+    V("c19-alias-first-source-wins", {"C19": "R2"}, edits=[
+        (L, "                    logic_map[_snake_to_camel(name)] = func\n", "                    logic_map.setdefault(_snake_to_camel(name), func)\n")]),
+    V("c17-invoke-handlers-first-only", {"C17": "R8"}, edits=[
+        (CE, "    if len(transitions) == 1:\n        return render_transition_value(transitions[0], state, machine)\n    rendered = ', '.join((render_transition_value(t, state, machine) for t in transitions))\n    return f'[{rendered}]'\n",
+             "    return render_transition_value(transitions[0], state, machine)\n")]),
+    V("c13-sync-copies-async-reset-rule", {"C13": "R1"}, edits=[
+        (S, "                processed += 1\n                if processed > limit:\n", "                processed = 0\n                if processed > limit:\n")],
+      note="the drain counter no longer counts"),
     V("silent-memo-keyed-by-guard-object-identity", silent=["C02"], edits=[
         (B, "            key = id(transition)\n", "            key = (id(transition), 0)\n")]),
     V("silent-enqueue-helper", silent=["C10", "C14", "C04"], edits=[
